@@ -156,6 +156,25 @@ def gen(tier, seed):
         for cut in range(0, n + 1):
             cases.append("chain\tb64enc(malloc)\t%s\t%s" % (",".join(str(x) for x in (cut, n - cut)), hx(data)))
             dist["streaming encode: two-feed splits"] += 1
+    # ---- ... also for texts the one-shot decoder REFUSES: a length of 1 mod 4, a character outside the alphabet at any
+    #      position (the last one included), non-zero trailing bits -- whatever the split, the stream must not end in success
+    bad_texts = []
+    for n in (0, 1, 2, 3, 6, 47, 48, 49, 64, 65, 96, 100):
+        good = py_enc(bytes(rnd.getrandbits(8) for _ in range(n)))
+        for extra in (b"A", b"=", b"+", b"/", b"\n", b"\x00", b"Z"):
+            bad_texts.append(good + extra if (len(good) + 1) % 4 == 1 or extra not in (b"A", b"Z") else good[:-1] + b"=")
+        if len(good) >= 2:
+            pos = rnd.randrange(len(good))
+            bad_texts.append(good[:pos] + b"*" + good[pos + 1:])
+            if len(good) % 4 == 2:
+                bad_texts.append(good[:-1] + bytes([ALPHA.encode()[(ALPHA.encode().index(good[-1]) | 1) % 64]]))
+    for text in bad_texts:
+        if py_dec(text) is not None:
+            continue
+        L = len(text)
+        for ch in {str(L), ",".join(["1"] * L) if L <= 70 else "%d,%d" % (L - 1, 1), "%d,%d" % (L - 1, 1), "%d,%d" % (1, L - 1) if L > 1 else str(L), "%d,%d" % (L // 2, L - L // 2)}:
+            cases.append("chain\tb64dec(malloc)\t%s\t%s" % (ch, hx(text)))
+            dist["streaming decode of texts the one-shot decoder refuses"] += 1
     # ---- the JSON-string, JSON-load and JSON-dump forms must agree with the raw-buffer form
     def jstr(b):
         # JSON text of a string holding exactly these bytes (all < 0x80 here; NUL and controls escaped)
@@ -279,6 +298,10 @@ def oracle(case, out):
         data = unhx(f[3])
         want = py_dec(data) if f[1].startswith("b64dec") else py_enc(data)
         o = out.split(" ")
+        if want is None:
+            if len(o) >= 2 and o[1] == "T":
+                return ("stream-accepts-what-oneshot-refuses", "the streaming decoder fed as %s ends in success for a text the one-shot decoder refuses (it delivered %s)" % (f[2], o[2] if len(o) > 2 else ""))
+            return None
         if len(o) < 3 or o[1] != "T" or unhx(o[2]) != want:
             return ("stream-differs-from-oneshot:" + f[1].split("(")[0], "the streaming %s fed as %s delivers something else than the one-shot codec" % (f[1].split("(")[0], f[2]))
         return None
